@@ -57,6 +57,8 @@ def roundtrip(ctx, msg, mtype, fields):
             ctx.holds("getters of other message kinds return None", e is None and v is None, "%s: %s" % (k, exc_name(e) if e is not None else "returned a value"))
     ctx.holds("repack identical", r.pack() == raw)
     pack_hands_out_fresh_buffers(ctx, msg.pack, ref)
+    decoded_object_owns_its_data(ctx, MessageToUserTlv.unpack, ref_tlv(2, val), lambda x: sym_and(
+        x.is_reserved_cfdp_message() == True, x.to_reserved_msg_tlv().pack() == ref), flavours=("bytearray", "memoryview"))  # noqa: E712
     return r
 
 
